@@ -428,6 +428,9 @@ def install(pid, rec):
                             if isinstance(obj, (sp.SparseVector, sp.SparseArray, sp.SparseLogicalVector)):
                                 e = sparse_invariant(obj)
                                 REC.hit('ambient:sparse-exit')
+                                if e and 'outside size' in e:
+                                    # tests/test_sparse.py writes sv[5] on a vector of size 4 on purpose ("size is not strict"); NumPy rejects such an index, so it is outside the property
+                                    REC.refuse('ambient: the workload wrote beyond the size of a sparse vector (NumPy rejects the index; not judged)'); continue
                                 REC.check(e is None, 'ambient:stored-entries', f'{label}/{role}', f'{NODE[0]}: after {label} the {role} violates the storage invariant: {e}', case=case())
                                 if isinstance(obj, sp.SparseVector) and obj.dct: REC.mark_nontrivial(f'{label}:{role}')
                     except Exception as e:
@@ -450,6 +453,7 @@ def install(pid, rec):
                     e = sparse_invariant(o)
                 except Exception:
                     continue
+                if e and 'outside size' in e: continue
                 REC.check(e is None, 'ambient:stored-entries', 'live-object-at-test-end', f'{NODE[0]}: a live {type(o).__name__} violates the storage invariant at the end of the test: {e}', case=case())
 
     # ------------------------------------------------------------------ C11 views agree on every live stream at the end of each test
